@@ -164,7 +164,9 @@ func (am *Machine) ProcessOperation(operation client.Operation, storeOperation b
 
 	path := filepath.Join(am.ResultFolder, operation.Filename()+"_result.json")
 
-	f, err := os.OpenFile(path, os.O_WRONLY|os.O_CREATE, 0600)
+	// O_TRUNC: the file may exist from an earlier handling of the same operation, and a shorter
+	// result written over a longer one leaves a file that no longer parses
+	f, err := os.OpenFile(path, os.O_WRONLY|os.O_CREATE|os.O_TRUNC, 0600)
 	if err != nil {
 		return "", fmt.Errorf("failed to open file: %w", err)
 	}
